@@ -32,9 +32,11 @@ def build_packager():
 # ---- workspace specifications -------------------------------------------------------------
 # buildpack: {"id", "dir", "kind": "libcnb"|"composite"|"other", "bins": [...] (first = main unless ambiguous), "deps": [uri...]}
 W1 = {"name": "w1", "ignore": "packaged/\n", "package_dir": None, "buildpacks": [
-    {"id": "verif/a", "dir": "buildpacks/a", "kind": "libcnb", "pkg": "bp-a", "bins": ["bp-a"]},
+    # both buildpacks have an additional binary target of the same name (different code): the
+    # workspace's shared target directory holds only the one built last
+    {"id": "verif/a", "dir": "buildpacks/a", "kind": "libcnb", "pkg": "bp-a", "bins": ["bp-a", "extra1"]},
     {"id": "verif/b", "dir": "buildpacks/b", "kind": "libcnb", "pkg": "bp-b", "bins": ["bp-b", "extra1"]},
-    {"id": "verif/meta", "dir": "meta/m", "kind": "composite", "deps": ["libcnb:verif/a", "libcnb:verif/b", "docker://docker.io/heroku/procfile-cnb:1.0"]},
+    {"id": "verif/meta", "dir": "meta/m", "kind": "composite", "platform": "windows", "deps": ["libcnb:verif/a", "libcnb:verif/b", "docker://docker.io/heroku/procfile-cnb:1.0"]},
     {"id": "verif/other", "dir": "other/o", "kind": "other"},
 ]}
 W2 = {"name": "w2", "ignore": "out/\n", "package_dir": "out/pk", "buildpacks": [
@@ -94,6 +96,8 @@ def generate(ws, root):
                     open(os.path.join(d, "src", "bin", f"{b}.rs"), "w").write(body)
         elif bp["kind"] == "composite":
             p = '[buildpack]\nuri = "."\n' + "".join(f'\n[[dependencies]]\nuri = "{dep}"\n' for dep in bp["deps"])
+            if bp.get("platform"):
+                p += f'\n[platform]\nos = "{bp["platform"]}"\n'
             open(os.path.join(d, "package.toml"), "w").write(p)
 
 
@@ -150,16 +154,23 @@ def expected_tree(ws, root, selected, release, pkgdir_abs):
         out[base] = ("d",)
         out[f"{base}/buildpack.toml"] = ("f", bp_toml(bp).encode())
         if bp["kind"] == "libcnb":
-            art = lambda name: open(os.path.join(root, "target", TRIPLE, prof, name), "rb").read()
+            # a binary is judged by what it does (each generated program prints "<buildpack id>:<target>");
+            # target names unique in the workspace are also compared byte for byte with cargo's artifact
+            shared = {b for other in ws["buildpacks"] if other is not bp for b in other.get("bins", [])}
+
+            def art(name, bp=bp, shared=shared):
+                if name in shared:
+                    return ("x", f"{bp['id']}:{name}\n".encode())
+                return ("f", open(os.path.join(root, "target", TRIPLE, prof, name), "rb").read())
             out[f"{base}/bin"] = ("d",)
-            out[f"{base}/bin/build"] = ("f", art(bp["bins"][0]))
+            out[f"{base}/bin/build"] = art(bp["bins"][0])
             out[f"{base}/bin/detect"] = ("l", "build")
             out[f"{base}/package.toml"] = ("toml", {"buildpack": {"uri": "."}})
             if len(bp["bins"]) > 1:
                 out[f"{base}/.libcnb-cargo"] = ("d",)
                 out[f"{base}/.libcnb-cargo/additional-bin"] = ("d",)
                 for b in bp["bins"][1:]:
-                    out[f"{base}/.libcnb-cargo/additional-bin/{b}"] = ("f", art(b))
+                    out[f"{base}/.libcnb-cargo/additional-bin/{b}"] = art(b)
         else:
             deps = []
             for d in bp["deps"]:
@@ -169,7 +180,10 @@ def expected_tree(ws, root, selected, release, pkgdir_abs):
                     deps.append({"uri": d})
                 else:
                     deps.append({"uri": lexical(os.path.join(root, bp["dir"]), d)})
-            out[f"{base}/package.toml"] = ("toml", {"buildpack": {"uri": "."}, "dependencies": deps})
+            exp = {"buildpack": {"uri": "."}, "dependencies": deps}
+            if bp.get("platform") and bp["platform"] != "linux":
+                exp["platform"] = {"os": bp["platform"]}
+            out[f"{base}/package.toml"] = ("toml", exp)
     return out
 
 
@@ -187,6 +201,13 @@ def compare_tree(pkgdir, want):
         elif w[0] == "l":
             if g != ("l", w[1]):
                 diffs.append(f"{rel} should be a link to {w[1]}, is {str(g)[:60]}")
+        elif w[0] == "x":
+            try:
+                got_out = subprocess.run([os.path.join(pkgdir, rel)], stdout=subprocess.PIPE, stderr=subprocess.DEVNULL, timeout=20).stdout if g[0] == "f" else None
+            except OSError as e:
+                got_out = repr(e).encode()
+            if got_out != w[1]:
+                diffs.append(f"{rel} is not the program of this buildpack: running it prints {got_out!r}, expected {w[1]!r}")
         elif w[0] == "f":
             if g[0] != "f" or g[2] != w[1]:
                 diffs.append(f"{rel} content differs ({'not a file' if g[0] != 'f' else str(len(g[2])) + ' bytes vs ' + str(len(w[1]))})")
